@@ -90,6 +90,15 @@ SegExpected(name, bytes) ==
     [] name = "seg_n" -> IF bytes <= 24 THEN {1} ELSE {2}
     [] name = "seg_fb" -> IF bytes <= 32 THEN {1} ELSE {2, 3}
     [] OTHER -> {1, 2, 3, 4, 5, 6, 7}
+\* fallback compositions over tagged leaves (default = lower tag): a leaf serves a request only after every leaf
+\* in front of it was asked through the composable interface in this very request and said no
+FbOrdered == {"fb", "fb_n", "fb_nest", "fb_nest2", "fb_aligned", "fb_tracked", "tracked_fb", "ts_fb", "fb_sl", "ref_fb_sl"}
+AskedAndRefused(k) == \E i \in 1..Len(st.leafs) : st.leafs[i].L = k /\ st.leafs[i].op \in {"tan", "taa"} /\ st.leafs[i].r = "null"
+\* compositions whose outermost adapter is the tracker: it is told exactly what the caller asked for
+TrackerOutermost == {"tracked", "tracked_n", "tracked_p", "tracked_fb", "tracked_sl", "ref_tracked_sl",
+                     "deep_pool", "deep_apool", "deep_coll", "deep_stack"}
+TrkArgsOk(ts, ops, c) == \A i \in 1..Len(ts) : ts[i].op \notin ops \/
+                           (ts[i].sz = c.sz /\ ts[i].al = c.al /\ ts[i].n = c.n /\ (ts[i].op \in {"na", "nd"}) = (c.op \in {"an", "tn", "dn", "tdn"}))
 OnRetWith(c, e) ==
   LET isAlloc == c.op \in {"an", "aa", "tn", "ta"}
       isTry == c.op \in {"tn", "ta", "tdn", "tda"}
@@ -114,9 +123,13 @@ OnRetWith(c, e) ==
                              "C09", "ResultInsideLeafAllocation", <<e.b, e.off, e.len, lf.b, lf.off>>)
                     \cup Chk(okA = {} \/ bytes = 0 \/ lf.L \in SegExpected(st.comp.name, bytes), "C09", "SegregatorRoutesBySize",
                              <<st.comp.name, c.op, c.n, c.sz, lf.L>>)
+                    \cup Chk(~(st.comp.name \in FbOrdered /\ okA # {}) \/ \A k \in 1..(lf.L - 1) : AskedAndRefused(k),
+                             "C08", "FallbackAsksDefaultFirst", <<st.comp.name, c.op, lf.L>>)
                     \cup Chk(e.mis = 0, "C02", "Aligned", <<c.al, e.mis>>)
                     \cup Chk(~st.comp.trk \/ st.comp.fb \/ Cardinality(TrkAllocs(st.trks)) = 1, "C09", "TrackerSeesEachSuccessOnce", <<c.op, Len(st.trks)>>)
                     \cup Chk(~(st.comp.trk /\ st.comp.fb) \/ Cardinality(TrkAllocs(st.trks)) = 1, "C09", "TrackerSeesEachSuccessOnce", <<c.op, Len(st.trks)>>)
+                    \cup Chk(st.comp.name \notin TrackerOutermost \/ c.sz = 0 \/ TrkArgsOk(st.trks, {"na", "aa"}, c),
+                             "C09", "TrackerToldWhatWasAsked", <<c.op, c.n, c.sz, c.al, st.trks>>)
                     \cup Chk(TrkDeallocs(st.trks) = {}, "C09", "TrackerSeesEachSuccessOnce", <<"dealloc callback during allocation">>))
           ELSE Result(done,
                  Chk(okA = {}, "C09", "FailedRequestLeavesNothing", <<c.op, e.r>>)
@@ -144,6 +157,8 @@ OnRetWith(c, e) ==
                                 "C09", "TrackerSeesEachSuccessOnce", <<c.op, Len(st.trks)>>)
                        \cup Chk(~(st.comp.trk /\ st.comp.fb) \/ refused \/ Cardinality(TrkDeallocs(st.trks)) = 1,
                                 "C09", "TrackerSeesEachSuccessOnce", <<c.op, Len(st.trks)>>)
+                       \cup Chk(st.comp.name \notin TrackerOutermost \/ c.sz = 0 \/ TrkArgsOk(st.trks, {"nd", "ad"}, c),
+                                "C09", "TrackerToldWhatWasAsked", <<c.op, c.n, c.sz, c.al, st.trks>>)
                        \cup Chk(TrkAllocs(st.trks) = {}, "C09", "TrackerSeesEachSuccessOnce", <<"alloc callback during release">>))
 
 OnRet(e) == LET r == OnRetWith(st.call, e) IN Result(r.s, r.v \cup DeepOk("ret"))
